@@ -43,7 +43,7 @@ def shapes(tier):
         for pat in itertools.product((0, 1), repeat=4):
             for st in ([STEP], [UNTIL("abs")]):
                 J.append(job([S("once", 1, origin=pat[0]), S("periodic", 2, origin=pat[1]), S("once", 3, origin=pat[2], dl="rel"),
-                              S("keyed", 4, origin=pat[3])] + st, permute=True, max_steps=3))
+                              S("keyed", 4, origin=pat[3])] + st, permute=True, max_steps=2))
     return dedup(J)
 
 
